@@ -42,7 +42,7 @@ func init() {
 	}
 	mc.Register(&mc.Check{
 		ID:        "C19",
-		Technique: "explicit-state bounded exploration of the real day loop: all temperature words up to depth D (plus alternating worst-case words) for a grid of bulk density x humus x water content x profile depth; envelope invariant on every layer after every day",
+		Technique: "explicit-state bounded exploration of the real day loop: all temperature words up to depth D (plus alternating worst-case words) for a grid of bulk density x humus x stone content x water content x profile depth; envelope invariant on every layer after every day",
 		Rule: "scenario = (bulk density class 1-5 or measured 1.0-2.0, organic carbon 0-5.8 %, initial water from dryness to saturation, 1/2/3/20 layers, lower-boundary temperature) with all words of Sigma^D; " +
 			"state = temperature profile; non-trivial = day on which some layer is within 0.01 K of the running envelope or the surface value changed by more than 20 K",
 		Assumptions: []string{"admissible domain: mineral-soil bulk density >= 1.0 g/cm3 (below 0.57 the conductivity formula changes sign)",
@@ -87,6 +87,8 @@ func init() {
 							if corg > 15 {
 								h.Tex = "HN"
 							}
+							// stone content rotates through the grid (the fine-earth bulk density is what the heat routine sees)
+							h.Stone = []int{0, 0, 30, 70, 0, 85}[k%6]
 							base := e1Base{Soil: "custom", Hor: []proj.Horizon{h}, GW: 99, InitW: iw, InitN: 10, ET: 3}
 							tb := 8.7
 							if n == 3 {
